@@ -9,6 +9,8 @@
      D lines    : checked-in parser vs pest_vm on parse_and_optimize(grammar.pest) [vs compiled freshly
                   generated parsers, one further column each]                        -> kind "spec"
                   checked-in parser vs exec over gen_env of the optimized meta-grammar -> kind "model"
+     P / L lines: a case under a setting of pest's process-wide switches (error detail on; call limits): checked-in parser
+                  vs pest_vm [vs compiled freshly generated parsers]; see rust/harness/src/c14_switches.rs -> kind "spec"
      S lines    : a call of a public entry changed pest's process-wide settings (call limit, error detail): oracle on the
                   implementation alone, printed by the harness only when it happens   -> kind "settings"
    argv.(1): texts longer than this many bytes are not run through the model (unary positions); -1: no model runs
@@ -26,13 +28,18 @@ let base s = let n = String.length s in
   let rec go i = if i + 4 > n then s else if String.sub s i 4 = " ## " then String.sub s 0 i else go (i + 1) in go 0
 let norm s = if String.length s >= 5 && String.sub s 0 5 = "Panic" then "Panic" else s
 
+(* parts of a budget observation `need=N below=`..` at=`..`` (rust/harness/src/c14_switches.rs) *)
+let need_of s = try Scanf.sscanf s "need=%d " (fun n -> n) with _ -> -1
+let after_at s = let n = String.length s in
+  let rec go i = if i + 5 > n then s else if String.sub s i 5 = " at=`" then String.sub s i (n - i) else go (i + 1) in go 0
+
 let () =
   let maxmodel = if Array.length Sys.argv > 1 then int_of_string Sys.argv.(1) else 200 in
   let tag = if Array.length Sys.argv > 2 && Sys.argv.(2) <> "" then " " ^ Sys.argv.(2) else "" in
   let leaks = ref 0 in
   let og : ogrammar ref = ref [] and osexp = ref "" and ast = ref "" in
   let names = ref [||] in
-  let cases = ref 0 and modelled = ref 0 and tv = ref 0 and spec = ref 0 and fresh = ref 0 and limited = ref 0 in
+  let cases = ref 0 and modelled = ref 0 and tv = ref 0 and spec = ref 0 and fresh = ref 0 and limited = ref 0 and switched = ref 0 in
   read_lines (fun line ->
     if String.length line > 0 && line.[0] = '#' then print_endline line else
     match split_tab line with
@@ -61,6 +68,33 @@ let () =
          against pest_vm: printed by the harness only when they differ *)
       let nrm s = if String.length s >= 5 && String.sub s 0 5 = "Panic" then "Panic" else s in
       if nrm x <> nrm y then begin incr spec; report "spec" (Printf.sprintf "r=%s in=%s against=%s entry=%s%s" rule inp who entry tag) x y end
+    | "P" :: rule :: inp :: a :: b :: rest ->
+      (* the case with pest::set_error_detail(true): forest, or error + parse attempts + rendered message, every leg by the same code *)
+      incr switched;
+      let a = norm a and b = norm b in
+      let case = Printf.sprintf "r=%s in=%s" rule inp in
+      if a <> b then begin incr spec; report "spec" (case ^ " against=vm switch=detail" ^ tag) a b end;
+      List.iteri (fun i c -> incr fresh; let c = norm c in
+        let who = (if i = 0 then " against=fresh" else " against=fresh-derive") ^ " switch=detail" ^ tag in
+        if a <> c then begin incr spec; report "spec" (case ^ who) a c end) rest
+    | "L" :: rule :: inp :: lim :: a :: b :: rest ->
+      (* the case under call limits.  auto: column a = the budget of the checked-in parser (smallest limit it does not refuse, answers at
+         and below it), to be EQUAL to the budget of every freshly generated parser (the same generated code); column b = pest_vm far
+         from that budget, judged by the harness.  <n>: every leg under set_call_limit(n). *)
+      incr switched;
+      let a = norm a and b = norm b in
+      let case = Printf.sprintf "r=%s in=%s" rule inp in
+      if lim = "auto" then begin
+        if not (String.length b >= 8 && String.sub b 0 8 = "vmfar=ok") then begin incr spec; report "spec" (case ^ " against=vm switch=limit:auto" ^ tag) a b end end
+      else if a <> b then begin incr spec; report "spec" (case ^ " against=vm switch=limit:" ^ lim ^ tag) a b end;
+      List.iteri (fun i c -> incr fresh; let c = norm c in
+        let who = (if i = 0 then " against=fresh" else " against=fresh-derive") ^ " switch=limit:" ^ lim ^ tag in
+        (* a build of the crates with another feature set (tag): its generator emits OTHER code than the checked-in grammar.rs (which is
+           generated with the default features), so the budgets may differ: only the answers at the budgets, and budgets within a factor 8 *)
+        let same = if tag = "" || lim <> "auto" then a = c else
+          let na = need_of a and nc = need_of c in
+          after_at a = after_at c && ((na < 0 && nc < 0) || (na >= 0 && nc >= 0 && nc <= 8 * na + 256 && na <= 8 * nc + 256)) in
+        if not same then begin incr spec; report "spec" (case ^ who) a c end) rest
     | "D" :: rule :: inp :: a :: b :: rest ->
       incr cases;
       let a = norm a and b = norm b in
@@ -81,4 +115,4 @@ let () =
         if m <> "Fuel" && m <> base a then report "model" (case ^ " side=generated") a m
       end
     | _ -> ());
-  Printf.printf "#RUNNER\tcases=%d\tmodelled=%d\ttv=%d\tmismatches=%d\tspec_differences=%d\tfresh_compared=%d\tfresh_limited=%d\tsettings_changed=%d\n" !cases !modelled !tv !mismatches !spec !fresh !limited !leaks
+  Printf.printf "#RUNNER\tcases=%d\tmodelled=%d\ttv=%d\tmismatches=%d\tspec_differences=%d\tfresh_compared=%d\tfresh_limited=%d\tsettings_changed=%d\tswitch_cases=%d\n" !cases !modelled !tv !mismatches !spec !fresh !limited !leaks !switched
